@@ -26,7 +26,7 @@ def describe(tier):
                     count_menu='None,0,1,2,-1 (quick: full menu when bytealigned is defaulted, None/1 when it is explicit)',
                     byte_data='all 1..3-byte strings over {00,ff,b2,01,80} after 0..7 offset bits' if tier == 'thorough'
                     else '1-byte strings at offsets 0..7, 2-byte strings at offsets 0,1,4,7, every 5th 3-byte string at offsets 0 and 3',
-                    long_data='17,24,33,64,65 bits periodic/constant' + ('; 8200, 16400 bits' if tier == 'thorough' else '')),
+                    long_data='17,24,33,64,65 bits periodic/constant' + ('; 8200, 8203, 16400 bits' if tier == 'thorough' else '; one 8203-bit pattern')),
         rule='every (state,event) pair of the product is executed exactly once (menus are deduplicated), so cases are '
              'distinct by construction; non-trivial = the model outcome is not an argument rejection (ValueError for '
              'empty pattern / invalid window / negative count)',
@@ -61,8 +61,10 @@ def shards(tier, seed):
     for L in (17, 24, 33, 64, 65):
         longs += families.edge(L, seed, full=False)
     if tier == 'thorough':
-        for L in (8200, 16400):
+        for L in (8200, 8203, 16400):
             longs += families.edge(L, seed, full=False)[:5]
+    else:
+        longs += families.edge(8203, seed, full=False)[1:2]     # beyond the 8192-bit reverse-scan chunk, not a whole number of bytes
     for i, part in enumerate(families.chunk(longs, 16)):
         out.append(dict(kind='long', data=part, idx=i))
     return out
